@@ -534,6 +534,10 @@ class FunctionType(ParametrizedTypeBase):
             [replace(inp, ty=inp.ty.transform(transformer)) for inp in self.inputs],
             self.output.transform(transformer),
             self.params,
+            # Comptime type arguments also need to be transformed
+            comptime_args=[
+                cast(ConstArg, arg.transform(transformer)) for arg in self.comptime_args
+            ],
             unitary_flags=self.unitary_flags,
         )
 
